@@ -71,3 +71,17 @@ Theorem C05_rotation_z90 : forall t rs o1 o2,
     find_pairs (map (move_res rot_z90 t) rs) o1 = find_pairs rs o1 /\ find_stackings (map (move_res rot_z90 t) rs) o2 = find_stackings rs o2.
 Proof. exact rotation_z90_invariant. Qed.
 Print Assumptions C05_rotation_z90.
+
+(* atoms listed in a different order inside residues (names unique inside a residue): the same annotation *)
+From Coq Require Import Permutation.
+From RV Require Import Base.PyStr Proofs.C05Order.
+
+Theorem C05_reordered_residue : forall r atoms', NoDup (map fst (r_atoms r)) -> Permutation (r_atoms r) atoms' ->
+    same_res r {| r_model := r_model r; r_chain := r_chain r; r_number := r_number r; r_icode := r_icode r; r_letter := r_letter r; r_atoms := atoms' |}.
+Proof. exact reordered_same. Qed.
+Print Assumptions C05_reordered_residue.
+
+Theorem C05_atom_order : forall rs rs', Forall2 same_res rs rs' ->
+    (forall order, find_pairs rs' order = find_pairs rs order) /\ (forall order, find_stackings rs' order = find_stackings rs order).
+Proof. intros rs rs' H. split; [exact (find_pairs_same rs rs' H)|exact (find_stackings_same rs rs' H)]. Qed.
+Print Assumptions C05_atom_order.
